@@ -128,7 +128,12 @@ func octWrite(stream *iox.OctetsStream, writer *iox.OctetsWriter, k octTok) erro
 	case 'v':
 		return writer.Write7BitEncodedInt(int32(atoi(k.val)))
 	case 'B':
-		return writer.WriteBytes(unhex(k.val))
+		scratch := unhex(k.val) // scribbled after the call: the stream must not keep the caller's slice
+		err := writer.WriteBytes(scratch)
+		for i := range scratch {
+			scratch[i] = 0xEE
+		}
+		return err
 	case 'S':
 		return writer.WriteString(string(unhex(k.val)))
 	}
@@ -261,7 +266,11 @@ func init() {
 			case 'v':
 				err = writer.Write7BitEncodedInt(int32(atoi(k.val)))
 			case 'B':
-				err = writer.WriteBytes(unhex(k.val))
+				scratch := unhex(k.val)
+				err = writer.WriteBytes(scratch)
+				for i := range scratch {
+					scratch[i] = 0xEE
+				}
 			case 'S':
 				err = writer.WriteString(string(unhex(k.val)))
 			default:
